@@ -37,8 +37,12 @@ def prune_dag(rng, dag, p, start=None, mdepth0=0):
         if (i, md, root) in remap:
             return remap[(i, md, root)]
         ty, bits, refs = dag[i]
-        if not root and md <= 2 and info[i] is not None and info[i][0] == 0 and rng.random() < p:
-            out.append(cells.pruned_node(1 << md, [info[i][1][0]], [info[i][2][0]]))
+        if not root and md <= 2 and info[i] is not None and info[i][0] < (1 << md) and rng.random() < p:
+            # the pruned branch gets the subtree's own mask plus bit md; it stores the subtree's hash and depth at level 0
+            # and at level b+1 for every bit b of the subtree's mask (a subtree of level 0 gives the plain 1 << md branch)
+            m = info[i][0]
+            levels = [0] + [b + 1 for b in range(3) if (m >> b) & 1]
+            out.append(cells.pruned_node(m | (1 << md), [info[i][1][l] for l in levels], [info[i][2][l] for l in levels]))
             n += 1
         else:
             kids = [emit(r, md + (1 if ty in (3, 4) else 0)) for r in refs]
